@@ -26,7 +26,7 @@ type family struct {
 var families = map[string]family{
 	"c01": {name: "c01", wFeedCall: 6, wFeedNote: 3, wFeedBatch: 8, wFeedInvalid: 4, wFeedReply: 1, wFeedRaw: 1, wGate: 12, wBuiltin: 1,
 		idPool: []string{"1", "2", "3", `"a"`, "4", "5"}, Ks: []int{1, 2, 3, 8}, push: []bool{false, false, true}, builtin: []bool{true, false}, steps: 18},
-	"c02": {name: "c02", wFeedCall: 3, wFeedNote: 2, wFeedBatch: 8, wFeedInvalid: 12, wFeedReply: 3, wFeedRaw: 4, wGate: 10, wBuiltin: 1,
+	"c02": {name: "c02", wFeedCall: 3, wFeedNote: 2, wFeedBatch: 8, wFeedInvalid: 12, wFeedReply: 5, wFeedRaw: 4, wGate: 10, wBuiltin: 1, wPush: 3, wCbCtx: 1,
 		idPool: []string{"1", "2", `"a"`, "0", "-1", "1.5", "1e3", `""`, `"\u0031"`}, Ks: []int{1, 3}, push: []bool{false, true}, builtin: []bool{true, false}, steps: 20},
 	"c03": {name: "c03", wFeedCall: 5, wFeedNote: 8, wFeedBatch: 6, wFeedInvalid: 1, wGate: 12, wCancel: 1, wPush: 1,
 		idPool: []string{"1", "2", "3", "4", "5", "6"}, Ks: []int{1, 2, 4, 8}, push: []bool{false, true}, builtin: []bool{true}, steps: 20},
@@ -116,8 +116,8 @@ func (s *scen) invalidMember() member {
 func (s *scen) replyMember() member {
 	// ids of callbacks are decimal numbers counting from 1; hit, miss and collide with request ids
 	id := strconv.Itoa(1 + s.g.intn(4))
-	if s.g.chance(1, 8) {
-		id = `"` + id + `"`
+	if s.g.chance(1, 5) {
+		id = `"` + id + `"` // a string id spelling a callback's number is a different id
 	}
 	if s.g.chance(1, 3) {
 		codes := []int{-32000, 7, -32097, -32096, -32601}
